@@ -44,13 +44,16 @@ def seeded_md():
     r2 = json.load(open('/verif/seeded/ROUND2_BLIND.json')) if os.path.exists('/verif/seeded/ROUND2_BLIND.json') else {'blind_detected': {}, 'notes': {}}
     r3 = json.load(open('/verif/seeded/ROUND3_BLIND.json')) if os.path.exists('/verif/seeded/ROUND3_BLIND.json') else {'blind_detected': {}, 'notes': {}}
     r4 = json.load(open('/verif/seeded/ROUND4_BLIND.json')) if os.path.exists('/verif/seeded/ROUND4_BLIND.json') else {'blind_detected': {}, 'notes': {}}
+    r5 = json.load(open('/verif/seeded/ROUND5_BLIND.json')) if os.path.exists('/verif/seeded/ROUND5_BLIND.json') else {'blind_detected': {}, 'notes': {}}
     out = ['| seeded change | round | what it does | needs to manifest | caught by (now) | detected blind (rule existed before the change was seen) |\n|---|---|---|---|---|---|']
-    nb = [0, 0, 0, 0, 0, 0, 0, 0]
+    nb = [0, 0, 0, 0, 0, 0, 0, 0, 0, 0]
     for k in sorted(res):
         m = json.load(open('/verif/seeded/%s/meta.json' % k))
         s = (m.get('summary') or '')[:160].replace('|', '/').replace('\n', ' ')
         nd = str(m.get('needs_to_manifest') or '')[:140].replace('|', '/').replace('\n', ' ')
-        if k in r4['blind_detected']:
+        if k in r5['blind_detected']:
+            rnd, blind = 5, r5['blind_detected'][k]
+        elif k in r4['blind_detected']:
             rnd, blind = 4, r4['blind_detected'][k]
         elif k in r3['blind_detected']:
             rnd, blind = 3, r3['blind_detected'][k]
@@ -60,12 +63,12 @@ def seeded_md():
             rnd, blind = 1, bool(m.get('static_check_result', {}).get('rule_existed_before_this_change_was_seen'))
         nb[(rnd - 1) * 2] += 1
         nb[(rnd - 1) * 2 + 1] += 1 if blind else 0
-        note = r2['notes'].get(k, '') or r3.get('notes', {}).get(k, '') or r4.get('notes', {}).get(k, '')
+        note = r2['notes'].get(k, '') or r3.get('notes', {}).get(k, '') or r4.get('notes', {}).get(k, '') or r5.get('notes', {}).get(k, '')
         out.append('| %s | %d | %s | %s | %s | %s |' % (k, rnd, s, nd, ', '.join(res[k].get('rules', [])) or res[k]['status'],
                                                          ('yes' if blind else 'no') + ((' -- ' + note) if note else '')))
     n = sum(1 for v in res.values() if v['status'] == 'detected')
-    out.append('\nDetected now: %d of %d. Blind: round 1 %d of %d (most round-1 rules were written after reading the change), round 2 %d of %d, round 3 %d of %d, round 4 %d of %d.' % (
-        n, len(res), nb[1], nb[0], nb[3], nb[2], nb[5], nb[4], nb[7], nb[6]))
+    out.append('\nDetected now: %d of %d. Blind: round 1 %d of %d (most round-1 rules were written after reading the change), round 2 %d of %d, round 3 %d of %d, round 4 %d of %d, round 5 %d of %d.' % (
+        n, len(res), nb[1], nb[0], nb[3], nb[2], nb[5], nb[4], nb[7], nb[6], nb[9], nb[8]))
     return '\n'.join(out)
 
 
@@ -126,6 +129,17 @@ def benign_md():
         out.append('\nRound 4 (`Cxx-d1`, `-d2`: two medium refactorings per property, REQUIRED to touch the functions that the rules added after seed round 4 inspect -- '
                    'the youngest and least generalised rules), FIRST run: %d changes, %d silent, %d false alarms (%d%%).' % (n4, n4 - a4, a4, round(100.0 * a4 / max(n4, 1))))
         out.append('\nFirst-run alarms of round 4: ' + '; '.join('%s (%s)' % (k, v['alarms'][0][:60].replace('|', '/')) for k, v in sorted(fr.items()) if v['status'] != 'silent') + '.')
+    f5 = '/verif/benign/ROUND5_FIRST.json'
+    if os.path.exists(f5):
+        fr = json.load(open(f5))
+        n5 = len(fr)
+        a5 = sum(1 for v in fr.values() if v['status'] != 'silent')
+        out.append('\nRound 5 (`Cxx-e1` medium, `-e2` larger: restructurings of the mechanism itself -- a different loop shape, a different but equivalent '
+                   'data representation of a local, a fused or split pass, an extracted or removed helper), FIRST run: %d changes, %d silent, %d false alarms (%d%%). '
+                   'By size: %s.' % (n5, n5 - a5, a5, round(100.0 * a5 / max(n5, 1)),
+                                     ', '.join('%s %d/%d' % (lab, sum(1 for k, v in fr.items() if k.endswith(suf) and v['status'] != 'silent'),
+                                                              sum(1 for k in fr if k.endswith(suf))) for lab, suf in (('medium', '-e1'), ('larger', '-e2')))))
+        out.append('\nFirst-run alarms of round 5: ' + '; '.join('%s (%s)' % (k, v['alarms'][0][:60].replace('|', '/')) for k, v in sorted(fr.items()) if v['status'] != 'silent') + '.')
     return '\n'.join(out)
 
 
